@@ -220,6 +220,52 @@ theorem C20_nested_inlining_partial {V : Type} [PyVal V] (interp : Interp V) (de
     ∀ (k : Nat) (r : Ref), refs[k]? = some r → ∃ v, outs[k]? = some v ∧ resolve vs.ρ r = .ok v :=
   VM.C20_nested_inlining interp defs hnf i args outs hev st refs htr a hrun hdone
 
+/-- C20 / C01 / C10 with activation flags ON NESTED CALLS (`inner(x, twz_active=f)`): the same conclusion
+    for every module in which each flagged nested call targets a callee that returns only whole results
+    of its own nodes (or of its nested callees) and does not use `unpack_to` (`FlagSafe`, decided by the
+    executable `flagSafeB`, which the driver evaluates on every generated module).  The specification
+    is inlining: `outs = inner(args) if f else (None, …)`; arguments of a deactivated call are not
+    evaluated.  Subsumes the theorem above (`flagSafe_of_noDagFlags`).  PARTIAL only outside `FlagSafe`:
+    there the code really departs from the specification — `C20_flag_witness_default` and
+    `C20_flag_witness_indexed` are the two known findings, proved about the model and replayed on the
+    code by the checks. -/
+theorem C20_nested_inlining_flags_partial {V : Type} [PyVal V] (interp : Interp V) (defs : List (Def V))
+    (hfs : FlagSafe defs) (i : Nat) (args outs : List V)
+    (hev : evalTopComps (withIdent interp) defs i args = .ok outs)
+    (st : BState V) (refs : List Ref) (htr : traceTopComps defs i args = .ok (st, refs))
+    (a : Attrs) {tr : List Label} {vs : VSt V}
+    (hrun : VRun (st.cfg (withIdent interp)) a tr vs) (hdone : vs.st.pc = .done) :
+    refs.length = outs.length ∧
+    ∀ (k : Nat) (r : Ref), refs[k]? = some r → ∃ v, outs[k]? = some v ∧ resolve vs.ρ r = .ok v :=
+  VM.C20_nested_inlining_flags interp defs hfs i args outs hev st refs htr a hrun hdone
+
+theorem C20_flagSafe_decidable {V : Type} [PyVal V] (defs : List (Def V)) (h : flagSafeB defs = true) :
+    FlagSafe defs := VM.flagSafeB_sound defs h
+
+theorem C20_no_flags_is_flagSafe {V : Type} [PyVal V] (defs : List (Def V)) (h : NoDagFlags defs) :
+    FlagSafe defs := VM.flagSafe_of_noDagFlags h
+
+/-- known finding (C01/C10/C20 `returns-unsupplied-default`), as a theorem about the model: the
+    deactivated nested call yields the callee's default (7) where the specification says None -/
+theorem C20_flag_witness_default :
+    VD.isSingleNone (evalTop (withIdent VD.interp) VD.wDefault 1 []) = true ∧
+    VD.isSingleInt 7 (runTop VD.interp VD.wDefault 1 []) = true ∧ flagSafeB VD.wDefault = false :=
+  VD.flag_witness_default
+
+/-- known finding (C01/C10/C20 `call-raised … flag-on-nested-dag`): the deactivated nested call whose
+    callee returns an indexed part makes the execution raise where the specification says None -/
+theorem C20_flag_witness_indexed :
+    VD.isSingleNone (evalTop (withIdent VD.interp) VD.wIndexed 1 []) = true ∧
+    VD.isError (runTop VD.interp VD.wIndexed 1 []) = true ∧ flagSafeB VD.wIndexed = false :=
+  VD.flag_witness_indexed
+
+-- non-vacuity: a module with a flagged nested call (flag = a DAG argument) that is `FlagSafe`
+example : FlagSafe VD.wSafe ∧ ¬ NoDagFlags VD.wSafe :=
+  ⟨VD.wSafe_flagSafe, fun h => by
+    have := h _ (List.mem_cons_of_mem _ (List.mem_singleton.mpr rfl)) (.dag 0 [.var 0 []] (some (.var 0 [])))
+      (by simp [VD.wSafe])
+    simp [Stmt.noDagFlag] at this⟩
+
 /-- C10: the activation flag is read through the whole reference (id and key path); a node whose flag is
     falsy yields None in the denotation, a node whose flag is truthy yields its function's value; and
     in every returning execution, whatever the schedule, the recorded result of a deactivated node is
